@@ -399,6 +399,43 @@ int MxEndpoint::app_send(const unsigned char *p, size_t n, bool use_writebuf) {
     return rc;
 }
 
+int MxEndpoint::app_send_userbuf(const unsigned char *p, size_t n, Bytes *wire) {
+    if (!ssl) { return PS_FAILURE; }
+    vsim_set_node(node);
+    Bytes pt(p, p + n); Bytes ct(n + 2048, 0xa5); uint32 ctLen = (uint32) ct.size();
+    int32 rc = matrixSslEncodeToUserBuf(ssl, pt.data(), (uint32) n, ct.data(), &ctLen);
+    log("EncodeToUserBuf", rc, (uint32_t) n);
+    if (rc > 0 && wire) { ct.resize(ctLen <= ct.size() ? ctLen : ct.size()); *wire = ct; }
+    if (on_api) { on_api(*this, "app_send"); }
+    return rc;
+}
+
+int MxEndpoint::write_begin(size_t n) {
+    if (!ssl) { return PS_FAILURE; }
+    vsim_set_node(node);
+    unsigned char *buf = nullptr;
+    int32 room = matrixSslGetWritebuf(ssl, &buf, (uint32) n);
+    log("GetWritebuf", room, (uint32_t) n);
+    wb_ptr_ = room > 0 ? buf : nullptr; wb_room_ = room;
+    wb_outbuf_ = vsim_peek_outbuf((const struct ssl *) ssl); wb_outlen_ = vsim_peek_outlen((const struct ssl *) ssl);
+    return room;
+}
+
+int MxEndpoint::write_commit(const unsigned char *p, size_t n) {
+    if (!ssl || !wb_ptr_) { return PS_FAILURE; }
+    // only while the reservation still describes the session's output buffer (nothing was appended or reallocated in between)
+    if (wb_outbuf_ != vsim_peek_outbuf((const struct ssl *) ssl) || wb_outlen_ != vsim_peek_outlen((const struct ssl *) ssl)) { wb_ptr_ = nullptr; return PS_FAILURE; }
+    vsim_set_node(node);
+    size_t take = n < (size_t) wb_room_ ? n : (size_t) wb_room_;
+    memcpy(wb_ptr_, p, take);
+    int32 rc = matrixSslEncodeWritebuf(ssl, (uint32) take);
+    log("EncodeWritebuf", rc, (uint32_t) take);
+    wb_ptr_ = nullptr;
+    if (rc >= 0) { wants_send = true; }
+    if (on_api) { on_api(*this, "app_send"); }
+    return rc;
+}
+
 int MxEndpoint::app_close() {
     if (!ssl) { return PS_FAILURE; }
     vsim_set_node(node);
